@@ -362,6 +362,10 @@ pub fn observe_value(
 
 /// One alias/layout variant for the canonicity check (C07): verdict, tagged AST JSON, the
 /// serialized text, std hash of the AST, equality with the first variant, re-serialization.
+fn scheme_of(w: &World, sch: usize) -> &wirefilter::Scheme {
+    &w.schemes[sch - 1]
+}
+
 pub fn observe_canon(
     w: &World,
     sch: usize,
@@ -389,9 +393,34 @@ pub fn observe_canon(
             if first.is_none() {
                 *first = Some(ast);
             }
+            // the C API route (default settings only): parse, serialize, hash, then compile - which consumes the
+            // handle, the usual life of a parsed filter in a host program - and release the compiled filter
+            let (chash, cok) = if max == 128 {
+                use std::hash::Hasher as _;
+                let fs = wirefilter_ffi::Scheme::from(scheme_of(w, sch).clone());
+                let r = wirefilter_ffi::wirefilter_parse_filter(&fs, src.as_ptr().cast(), src.len());
+                match r.ast {
+                    None => ("none".to_string(), false),
+                    Some(a) => {
+                        let sr = wirefilter_ffi::wirefilter_serialize_filter_to_json(&a);
+                        let same_json = crate::ffi_bytes(sr.json.ptr as *const u8, sr.json.len) == text.as_bytes();
+                        let hr = wirefilter_ffi::wirefilter_get_filter_hash(&a);
+                        let mut fh = fnv::FnvHasher::default();
+                        fh.write(text.as_bytes());
+                        let ok = same_json && hr.hash == fh.finish();
+                        let c = wirefilter_ffi::wirefilter_compile_filter(a);
+                        if let Some(f) = c.filter {
+                            wirefilter_ffi::wirefilter_free_compiled_filter(f);
+                        }
+                        (hr.hash.to_string(), ok)
+                    }
+                }
+            } else {
+                ("skipped".to_string(), true)
+            };
             json!({"src": src, "ok": true, "out": "ok", "ast": tagjson::logical(&j),
                    "json": text.as_bytes().len() as u64, "jsontext": text, "hash": limbs(hv),
-                   "eq": eq, "stable": text == text2})
+                   "eq": eq, "stable": text == text2, "chash": chash, "cok": cok})
         }
     }
 }
